@@ -30,6 +30,7 @@ import EsbuildModel.Impl.Decoders
 import EsbuildModel.Impl.CssBox
 import EsbuildModel.Impl.MiniJS
 import EsbuildModel.Impl.WatchDriver
+import EsbuildModel.Impl.LexNum
 
 open EsbuildModel
 
@@ -68,6 +69,7 @@ def dispatch (kernel : String) (args : List String) : String :=
   | "cssbox" => CssBox.driver args
   | "minijs" => MiniJS.driver args
   | "watch" => Watch.driver args
+  | "lexnum" => LexNum.driver args
   | _ => "bad-kernel"
 
 partial def loop (hin hout : IO.FS.Stream) : IO Unit := do
